@@ -34,7 +34,9 @@ Section Keys.
   (* a fresh ticket for spn at time now *)
   Definition pissue (k : pkdc) (spn now : Z) : pentry * pkdc :=
     let start := floor_s (now + pk_ahead k) in
-    let renew := if pk_renew k =? 0 then 0 else start + 1000 * pk_renew k in
+    (* renew-till is the smaller of the KDC's own limit and the rtime the client asked for, which the client computed on
+       ITS clock: with a KDC clock that is not behind, the client's *)
+    let renew := if pk_renew k =? 0 then 0 else floor_s now + 1000 * pk_renew k in
     let key := keysrc (pk_next k) in
     (mkPE spn (pk_next k) key start (start + 1000 * pk_life k) renew,
      mkPK (pk_next k + 1) (pk_life k) (pk_renew k) (pk_serves k) (pk_ahead k) ((pk_next k, spn, key) :: pk_log k)).
